@@ -472,8 +472,8 @@ func (tx *Transaction) Copy() *Transaction {
 		}
 		if len(input.PeginWitness) != 0 {
 			newInput.PeginWitness = make([][]byte, len(input.PeginWitness))
-			for _, pwit := range input.PeginWitness {
-				newInput.PeginWitness = append(newInput.PeginWitness, copyBytes(pwit))
+			for i, pwit := range input.PeginWitness {
+				newInput.PeginWitness[i] = copyBytes(pwit)
 			}
 		}
 		if len(input.IssuanceRangeProof) != 0 {
